@@ -1,7 +1,8 @@
 (* C09 -- the Shapley oracle counts coalitions exactly.  Statements only (proofs in Proofs/OracleProofs.v and
    Proofs/OracleExact.v). *)
 From Coq Require Import List Arith Bool.
-From DS Require Import Model.ADD Spec.Count Model.Oracle Proofs.OracleProofs Proofs.OracleExact.
+From Coq Require Import Permutation.
+From DS Require Import Model.ADD Spec.Count Model.Oracle Proofs.OracleProofs Proofs.OracleExact Proofs.OracleValid.
 Import ListNotations.
 
 (* the counts of the specification over all tallies always add up to 2^(units-1) *)
@@ -27,6 +28,26 @@ Theorem C09_oracle_exact : forall p d locs target t1 t2,
   oracle_query p d locs target t1 t2 = Some (count_spec p target t1 t2).
 Proof. exact oracle_exact. Qed.
 
+(* the same for ANY order of the units over the levels of the diagram (compile()'s leaf/factor case orders the units by
+   component, factors first): row presence is read through unit_view, the assignment in unit order *)
+Theorem C09_oracle_exact_any_order : forall p d locs target t1 t2,
+  d_type d = p_type p -> okd d -> zero_adders d ->
+  Permutation (map (level_of d) (seq 0 (p_units p))) (seq 0 (p_units p)) -> length (d_levels d) = p_units p ->
+  (forall y, length y = p_units p -> forall r, r < length (p_rows p) ->
+     hits d y (nth r locs []) = if row_present (nth r (p_rows p) []) (unit_view d (p_units p) y) then 1 else 0) ->
+  (forall r u, In u (nth r (p_rows p) []) -> u < p_units p) ->
+  2 <= p_units p -> target < p_units p ->
+  oracle_query p d locs target t1 t2 = Some (count_spec p target t1 t2).
+Proof. exact oracle_exact_order. Qed.
+
+(* translation validation backed by a theorem: valid_compiled is ONE boolean (Model/Oracle.v) evaluated inside Coq on the
+   diagram and row locations dumped from compile() on every instance of every run; whenever it is true the oracle
+   model is exact for every target and boundary pair *)
+Theorem C09_oracle_exact_validated : forall p d locs target t1 t2,
+  valid_compiled p d locs = true -> 2 <= p_units p -> target < p_units p ->
+  oracle_query p d locs target t1 t2 = Some (count_spec p target t1 t2).
+Proof. exact oracle_exact_validated. Qed.
+
 (* compile() in the chain case (every row needs exactly one unit: one-unit-per-row and map/fork pipelines) produces
    such a diagram: the oracle is exact with no further hypothesis *)
 Theorem C09_oracle_chain_exact : forall p target t1 t2,
@@ -44,3 +65,5 @@ Proof. exact oracle_chain_instance. Qed.
 Print Assumptions C09_spec_total.
 Print Assumptions C09_oracle_exact.
 Print Assumptions C09_oracle_chain_exact.
+Print Assumptions C09_oracle_exact_any_order.
+Print Assumptions C09_oracle_exact_validated.
